@@ -202,9 +202,18 @@ def ev(src):
 
 
 def exec_op(op):
-    """executes one history op on the real library; returns nothing (state is the point)"""
+    """executes one history op on the real library; returns nothing (state is the point), except for an inline probe
+    (["probe", lang, src]: explicit load, build, realize) whose text and warning count are part of the comparison"""
     import pyrealb
     kind = op[0]
+    if kind == "probe":
+        do_load(op[1])
+        with Quiet() as q:
+            try:
+                txt = ev(op[2]).realize()
+            except Exception as e:  # noqa
+                txt = "EXC:" + type(e).__name__
+        return [txt, q.nwarn()]
     with Quiet():
         try:
             if kind == "loadEn":
@@ -265,19 +274,42 @@ def run_probes():
     return out
 
 
+NOLOAD_PROBES = ['NP(D("the"),N("cat")).n("p")', 'NP(D("le"),N("chat")).n("p")', 'S(Pro("I"),VP(V("sleep").t("ps")))',
+                 'S(Pro("je"),VP(V("dormir").t("pc")))', 'N("homme")', 'A("grand").f("co")']
+
+
+def run_noload_probes():
+    """probes built and realized WITHOUT an explicit load: they see the language the history left current; the fresh
+    interpreter they are compared with ran the same explicit loads and nothing else"""
+    import pyrealb
+    out = []
+    for src in NOLOAD_PROBES:
+        with Quiet() as q:
+            try:
+                txt = ev(src).realize()
+            except Exception as e:  # noqa
+                txt = "EXC:" + type(e).__name__
+        out.append([txt, q.nwarn(), pyrealb.getLanguage()])
+    return out
+
+
 def child_history(hist):
     import pyrealb
     langs = []
+    inline = []
     for op in hist:
-        exec_op(op)
+        r = exec_op(op)
+        if op[0] == "probe":
+            inline.append(r)
         langs.append(pyrealb.getLanguage())
+    noload = run_noload_probes()
     h = res_hashes()
     fp = state_fingerprint()
     changed = None
     if "pristine_state" in _G and fp[0] != _G["pristine_state"][0]:
         a, b = set(_G["pristine_state"][1]), set(fp[1])
         changed = sorted(x.split("=")[0] for x in (a ^ b))[:6]
-    return {"langs": langs, "probes": run_probes(), "hashes": h, "state_changed": changed}
+    return {"langs": langs, "probes": run_probes(), "hashes": h, "state_changed": changed, "inline": inline, "noload": noload}
 
 
 def _task(arg):
@@ -296,6 +328,8 @@ def model_ops(op):
         return ["lexAdd:" + (op[1] or "cur")]
     if op[0] == "lemmata":      # buildLemmataMap(lang) loads lang
         return ["loadEn" if op[1] == "en" else "loadFr"]
+    if op[0] == "probe":        # explicit load, build, realize
+        return ["loadEn" if op[1] == "en" else "loadFr", "build", "realize"]
     if op[0] == "realize2":     # build under one language, realize under another
         return ["loadEn" if op[2] == "en" else "loadFr", "build", "loadEn" if op[3] == "en" else "loadFr", "realize"]
     return [MODEL_NAME[op[0]]]
@@ -340,8 +374,27 @@ def gen_history(rng, with_mgmt):
             hist.append(["oneOf", rng.choice(["oneOf", "choice", "mix"]), rng.randint(1, 6), alts])
         else:
             fresh_id += 1
-            hist.append(["lexAdd", rng.choice([None, "en", "fr"]), "zzverif%d" % fresh_id,
-                         {"N": {"tab": "n1"} if rng.random() < 0.5 else {"g": "m", "tab": "n3"}}])
+            lemma = "zzverif%d" % fresh_id
+            tl = rng.choice([None, "en", "fr"])
+            target = tl or cur
+            use = ('NP(D("the"),N("%s")).n("p")' if target == "en" else 'NP(D("le"),N("%s")).n("p")') % lemma
+            if rng.random() < 0.6:          # the lemma is looked up (and missed) BEFORE it is added
+                hist.append(["probe", target, use])
+                cur = target
+                if tl is None and rng.random() < 0.5:
+                    other = "fr" if target == "en" else "en"
+                    hist.append(["loadEn" if other == "en" else "loadFr"])
+                    hist.append(["loadEn" if target == "en" else "loadFr"])
+            hist.append(["lexAdd", tl, lemma, {"N": {"tab": "n1"} if target == "en" else {"g": "m", "tab": "n3"}}])
+            if rng.random() < 0.8:          # … and used afterwards: only the lexicon contents may matter
+                hist.append(["probe", target, use])
+                cur = target
+            if rng.random() < 0.3:          # an existing entry replaced, then used
+                w = "cat" if target == "en" else "chat"
+                hist.append(["probe", target, use.replace(lemma, w)])
+                hist.append(["lexAdd", target, w, {"N": {"tab": "n5"} if target == "en" else {"g": "f", "tab": "n17"}}])
+                hist.append(["probe", target, use.replace(lemma, w)])
+                cur = target
     return hist
 
 
@@ -350,6 +403,8 @@ def opsig(op):
     if k in ("realize", "build", "str", "clone", "toJSON", "fromJSON", "toSource", "warn", "realize2"):
         head = op[1].split("(")[0]
         return "%s:%s" % (k, head)
+    if k == "probe":
+        return "probe:%s:%s" % (op[1], op[2].split("(")[0])
     if k == "oneOf":
         return "oneOf:" + op[1]
     if k == "lexAdd":
@@ -379,16 +434,62 @@ def fork_run(hist):
 
 
 def mgmt_part(hist):
-    """what determines the lexicon contents: the management calls and the language switches that select their target"""
+    """what the fresh interpreter executes: the management calls, the inline probes that follow the first of them (they
+    read the edited lexicon) and the language switches that select their target; without any management call only the
+    LAST language switch (it decides what the no-load probes see)"""
     mg = []
+    seen_mgmt = False
     for op in hist:
-        if op[0] in ("lexAdd", "loadEn", "loadFr"):
+        if op[0] == "lexAdd":
+            seen_mgmt = True
             mg.append(op)
+        elif op[0] in ("loadEn", "loadFr", "loadOther"):
+            mg.append(op)
+        elif op[0] == "probe":
+            mg.append(op if seen_mgmt else ["loadEn" if op[1] == "en" else "loadFr"])
         elif op[0] == "realize2":
             mg.append(["loadEn" if op[3] == "en" else "loadFr"])
         elif op[0] == "lemmata":
             mg.append(["loadEn" if op[1] == "en" else "loadFr"])
-    return mg if any(op[0] == "lexAdd" for op in mg) else []
+    if any(op[0] == "lexAdd" for op in mg):
+        return mg
+    # only the switches since (and including) the last loadEn/loadFr matter (load("es") etc. depend on what is current)
+    last = max([i for i, op in enumerate(mg) if op[0] in ("loadEn", "loadFr")], default=None)
+    return mg[last:] if last is not None else mg
+
+
+def inline_after_mgmt(hist, inline):
+    """the outputs of the inline probes that follow the first management call (those the fresh run repeats)"""
+    out, k, seen = [], 0, False
+    for op in hist:
+        if op[0] == "lexAdd":
+            seen = True
+        elif op[0] == "probe":
+            if seen:
+                out.append(inline[k])
+            k += 1
+    return out
+
+
+def compare(hist, res, fr):
+    """how the outcome of a history differs from the fresh interpreter's, or None"""
+    ps = probes()
+    for i, (a, b) in enumerate(zip(res["probes"], fr["probes"])):
+        if a != b:
+            return {"what": "probe", "probe": ps[i], "after_history": a, "fresh": b}
+    a, b = inline_after_mgmt(hist, res.get("inline", [])), fr.get("inline", [])
+    if a != b:
+        i = next((i for i, (x, y) in enumerate(zip(a, b)) if x != y), None)
+        return {"what": "inline", "after_history": a if i is None else a[i], "fresh": b if i is None else b[i],
+                "note": "a probe realized after a lexicon-management call: only the lexicon contents may matter, not the look-ups made before"}
+    for i, (a, b) in enumerate(zip(res.get("noload", []), fr.get("noload", []))):
+        if a != b:
+            return {"what": "noload", "probe": NOLOAD_PROBES[i], "after_history": a, "fresh": b,
+                    "note": "[text, warnings, getLanguage()] of an expression built without an explicit load after the history; the fresh interpreter ran the same explicit loads only"}
+    for k in res["hashes"]:
+        if res["hashes"][k] != fr["hashes"][k]:
+            return {"what": "resource", "resource": k, "state_changed": res.get("state_changed")}
+    return None
 
 
 def differs(hist, fresh_of):
@@ -401,14 +502,7 @@ def differs(hist, fresh_of):
     fr = fresh_of[key]
     if "child_error" in res or "child_error" in fr:
         return None
-    ps = probes()
-    for i, (a, b) in enumerate(zip(res["probes"], fr["probes"])):
-        if a != b:
-            return {"what": "probe", "probe": ps[i], "after_history": a, "fresh": b}
-    for k in res["hashes"]:
-        if res["hashes"][k] != fr["hashes"][k]:
-            return {"what": "resource", "resource": k, "state_changed": res.get("state_changed")}
-    return None
+    return compare(hist, res, fr)
 
 
 def shrink(hist, fresh_of, what):
@@ -484,27 +578,27 @@ def run(ctx, deep=False):
         if impl_changed != model_changed:
             ctx.diff(line, {"resources_changed": model_changed}, {"resources_changed": impl_changed})
         # the direct oracle: same probes as the fresh interpreter, same resources
-        bad = None
-        for i, (a, b) in enumerate(zip(res["probes"], fr["probes"])):
-            if a != b:
-                bad = {"what": "probe", "probe": ps[i], "after_history": a, "fresh": b}
-                break
-        if bad is None:
-            for k in res["hashes"]:
-                if res["hashes"][k] != fr["hashes"][k]:
-                    bad = {"what": "resource", "resource": k, "state_changed": res.get("state_changed")}
-                    break
+        bad = compare(h, res, fr)
+        hh = h
+        if bad is None and mlangs != res["langs"]:
+            # the language changed where no explicit load stands: the prefix up to that op is a history after which an
+            # expression built without load differs from the fresh interpreter's
+            i = next(i for i, (a, b) in enumerate(zip(mlangs, res["langs"])) if a != b)
+            bad = differs(h[:i + 1], {})
+            hh = h[:i + 1]
         if bad is not None and len(ctx.failures) < 6:
-            small = shrink(h, {}, bad["what"])
+            small = shrink(hh, {}, bad["what"])
             d = differs(small, {}) or bad
             if d["what"] == "probe":
                 sig = "history-dependence:%s|probe:%s" % (",".join(opsig(o) for o in small), d["probe"][1].split("(")[0])
+            elif d["what"] in ("inline", "noload"):
+                sig = "history-dependence:%s|%s" % (",".join(opsig(o) for o in small), d["what"])
             else:
                 sig = "resource-mutated:%s%s|%s" % (d["resource"], (":" + ",".join(d["state_changed"])) if d.get("state_changed") else "",
                                                     ",".join(opsig(o) for o in small))
             ctx.fail(sig, {"history": small, "probe_lang_src": d.get("probe")}, d)
         elif bad is not None:
-            ctx.fail("unshrunk:" + bad["what"], {"history": h}, bad)
+            ctx.fail("unshrunk:" + bad["what"], {"history": hh}, bad)
     ctx.notes["histories"] = len(hists)
     ctx.notes["probes_per_history"] = len(ps)
     ctx.notes["op_distribution"] = kinds
